@@ -41,6 +41,9 @@ pub struct Solver {
 	pub cmd: String,
 	pub unknowns: u64,
 	pub hangs: u64,
+	/// speculative scopes whose assumption has not been sent to the solver yet (most merged branches never
+	/// need a query, so their push / assert / pop is skipped altogether)
+	lazy: Vec<(T, bool)>,
 	/// definitional axioms (sqrt): asserted term -> the uninterpreted application it constrains
 	pub axioms: HashMap<T, T>,
 	rebuild_lines: Vec<String>,
@@ -102,6 +105,7 @@ impl Solver {
 			cmd: cmd.to_string(),
 			unknowns: 0,
 			hangs: 0,
+			lazy: Vec::new(),
 			axioms: HashMap::new(),
 			rebuild_lines: Vec::new(),
 			prefer_standalone: false,
@@ -265,15 +269,16 @@ impl Solver {
 			self.raw_pop();
 		}
 		self.temp_depth = 0;
+		self.lazy.clear();
 		self.oplog.retain(|l| *l <= keep);
 		self.skip = self.oplog.len();
 	}
 
 	/// persistent: new decision level
 	pub fn push(&mut self) {
-		if self.temp_depth > 0 {
-			self.raw_push();
-			self.temp_depth += 1;
+		if self.temp_depth > 0 || !self.lazy.is_empty() {
+			// decisions are never taken inside a speculative scope (the interpreter reports Impure instead)
+			self.error = Some("internal: decision level opened inside a speculative scope".into());
 			return;
 		}
 		if self.skip > 0 {
@@ -286,6 +291,7 @@ impl Solver {
 	}
 	/// persistent (or temp when inside a temp scope): assert a Bool term at the current level
 	pub fn assert(&mut self, tm: &Terms, t: T) {
+		self.materialize(tm);
 		if self.temp_depth == 0 {
 			if self.skip > 0 {
 				self.skip -= 1;
@@ -303,14 +309,36 @@ impl Solver {
 	pub fn replaying(&self) -> bool {
 		self.skip > 0
 	}
-	/// temporary scope (speculative evaluation): balanced push/pop not recorded in the op log
-	pub fn temp_push(&mut self) {
-		self.raw_push();
-		self.temp_depth += 1;
+	/// temporary scope (speculative evaluation) under the assumption c; sent to the solver only when a
+	/// query needs it
+	pub fn temp_push_assume(&mut self, c: T) {
+		self.lazy.push((c, false));
 	}
 	pub fn temp_pop(&mut self) {
-		self.raw_pop();
-		self.temp_depth -= 1;
+		if let Some((_, mat)) = self.lazy.pop() {
+			if mat {
+				self.raw_pop();
+				self.temp_depth -= 1;
+			}
+		}
+	}
+	fn materialize(&mut self, tm: &Terms) {
+		for i in 0..self.lazy.len() {
+			if !self.lazy[i].1 {
+				let c = self.lazy[i].0;
+				self.lazy[i].1 = true;
+				self.raw_push();
+				self.temp_depth += 1;
+				self.ensure(tm, c);
+				let line = format!("(assert {})", tm.ref_smt(c));
+				self.send(&line);
+				let l = self.level();
+				self.pc.push((c, l));
+			}
+		}
+	}
+	pub fn in_temp(&self) -> bool {
+		!self.lazy.is_empty()
 	}
 
 	fn pc_hash(&self) -> u64 {
@@ -325,6 +353,7 @@ impl Solver {
 
 	/// is PC ∧ (t == want) satisfiable?
 	pub fn check_with(&mut self, tm: &Terms, t: T, want: bool) -> Res {
+		self.materialize(tm);
 		if let Some(b) = tm.as_bool(t) {
 			return if b == want { self.check_pc() } else { Res::Unsat };
 		}
@@ -415,6 +444,7 @@ impl Solver {
 		r
 	}
 	pub fn check_pc_tm(&mut self, tm: &Terms) -> Res {
+		self.materialize(tm);
 		let mut r = Res::Unknown;
 		if !self.prefer_standalone {
 			r = self.check_pc();
@@ -451,6 +481,7 @@ impl Solver {
 	/// after a Sat answer of check_with(t, want): values of the given variables. The query is repeated
 	/// inside a temp scope so that the model belongs to it.
 	pub fn model(&mut self, tm: &Terms, t: T, want: bool, vars: &[(String, Sort)]) -> Option<Vec<(String, String)>> {
+		self.materialize(tm);
 		self.ensure(tm, t);
 		self.raw_push();
 		let lit = if want { tm.ref_smt(t) } else { format!("(not {})", tm.ref_smt(t)) };
